@@ -336,3 +336,61 @@ func mayBeRow(g, a *Term, depth int) bool {
 	}
 	return false
 }
+
+// abstractToBV generalises a quantifier-free query to pure QF_BV: every sub-term whose
+// operator lies outside the bit-vector/Boolean core (array reads, integer arithmetic and
+// comparisons, uninterpreted functions, bridges) is replaced by a fresh constant of its sort,
+// the same term always by the same constant. The abstraction forgets facts, so "unsat" for the
+// abstracted query implies "unsat" for the original one (design rule "read hoisting").
+func (c *TermCtx) abstractToBV(ts []*Term) []*Term {
+	memo := map[int]*Term{}
+	core := map[string]bool{"and": true, "or": true, "not": true, "=>": true, "ite": true, "=": true,
+		"bvadd": true, "bvsub": true, "bvmul": true, "bvand": true, "bvor": true, "bvxor": true, "bvshl": true, "bvlshr": true, "bvashr": true,
+		"bvudiv": true, "bvurem": true, "bvsdiv": true, "bvsrem": true, "bvnot": true, "bvneg": true,
+		"bvult": true, "bvule": true, "bvslt": true, "bvsle": true, "extract": true, "zero_extend": true, "sign_extend": true, "concat": true}
+	var rec func(t *Term) *Term
+	rec = func(t *Term) *Term {
+		if r, ok := memo[t.id]; ok {
+			return r
+		}
+		var r *Term
+		okSort := t.Sort.Kind == SBV || t.Sort.Kind == SBool
+		switch {
+		case t.Op == "const" && okSort:
+			r = t
+		case t.Op == "var" && okSort:
+			r = t
+		case core[t.Op] && okSort:
+			coreArgs := true
+			for _, a := range t.Args {
+				if a.Sort.Kind != SBV && a.Sort.Kind != SBool {
+					coreArgs = false
+				}
+			}
+			if coreArgs {
+				args := make([]*Term, len(t.Args))
+				for i, a := range t.Args {
+					args[i] = rec(a)
+				}
+				r = c.rebuild(t, args)
+			}
+		}
+		if r == nil {
+			if !okSort {
+				return nil
+			}
+			r = c.Var("abs$"+itoa(t.id), t.Sort)
+		}
+		memo[t.id] = r
+		return r
+	}
+	var out []*Term
+	for _, t := range ts {
+		if t.open || containsQuant(t) {
+			out = append(out, nil)
+			continue
+		}
+		out = append(out, rec(t))
+	}
+	return out
+}
